@@ -76,7 +76,8 @@ def main():
             info = fi.get(cname)
             if not info:
                 continue
-            req, ens, asg = clauses(b, cname, True)
+            req, _, asg = clauses(b, cname, True)
+            _, ens, _ = clauses(b, cname, False)          # without the history-variable definitions (ensures_callee): nothing to prove for those
             assumed.append((u['id'], cname, (os.path.basename(str(info['file'])), info['line']), str(info.get('owner')), mode, req, ens, asg))
     rows = []
     for uid, cname, key, owner, mode, req, ens, asg in assumed:
